@@ -256,7 +256,11 @@ func cmdCheck(args []string) int {
 			if p.Status == "ok" && len(p.Reached) > 0 && p.Sample != nil && nW < 2 && !e.NoReplay {
 				nW++
 				f := filepath.Join(verifRoot, "replays", pid, fmt.Sprintf("witness-%s-%d.json", e.Fn, pi))
-				replays = append(replays, replayItem{Entry: e.Fn, File: f, Kind: "witness", Values: p.Sample, Choices: p.Choices, Tier: *tier})
+				var mayFail []string
+				for _, v := range p.Violations {
+					mayFail = append(mayFail, v.Obligation)
+				}
+				replays = append(replays, replayItem{Entry: e.Fn, File: f, Kind: "witness", Values: p.Sample, Choices: p.Choices, Tier: *tier, Expect: mayFail})
 				if len(samples) < 6 {
 					samples = append(samples, map[string]interface{}{"entry": e.Fn, "kind": "witness path", "inputs": p.Sample, "choices": p.Choices, "reached": p.Reached})
 				}
@@ -720,8 +724,8 @@ func TestZZReplay(t *testing.T) {
 			case it.Kind == "witness":
 				if r.Panicked {
 					results[i] = replayResult{false, "native run panicked: " + r.PanicMsg}
-				} else if len(r.Failed) > 0 {
-					results[i] = replayResult{false, "native run fails " + strings.Join(r.Failed, ",")}
+				} else if extra := notIn(r.Failed, it.Expect); len(extra) > 0 {
+					results[i] = replayResult{false, "native run fails " + strings.Join(extra, ",")}
 				} else {
 					results[i] = replayResult{true, ""}
 				}
@@ -792,4 +796,18 @@ func replayOne(pid string, cfg *CheckCfg, path string) int {
 func runNativeReplaysNoWrite(cfg *CheckCfg, items []replayItem) ([]replayResult, error) {
 	// runNativeReplays rewrites the replay file from the item; items loaded from a file carry the same content
 	return runNativeReplays(cfg, items)
+}
+
+func notIn(xs, allowed []string) []string {
+	ok := map[string]bool{}
+	for _, a := range allowed {
+		ok[a] = true
+	}
+	var out []string
+	for _, x := range xs {
+		if !ok[x] {
+			out = append(out, x)
+		}
+	}
+	return out
 }
